@@ -263,6 +263,52 @@ def two_flushes(ctx):
                      "(it does not drain)" % (second_out.get("returned_with_done"),), j, kind="schedule", tag="flush-early")
 
 
+def two_handlers(ctx):
+    """Two task handlers in one process (an agent restarted while the old instance is still delivering, two Deep objects): what
+    one accepted is its own - the other's completions do not make its flush return early, and nothing is run twice or dropped."""
+    from deep.task import TaskHandler
+    for order in ("old finishes first", "new flushes first"):
+        a, b = TaskHandler(), TaskHandler()
+        gate_a, gate_b = threading.Event(), threading.Event()
+        ran = []
+
+        def work(who, gate):
+            gate.wait(20)
+            ran.append(who)
+        a.submit_task(work, "a1", gate_a)
+        b.submit_task(work, "b1", gate_b)
+        if order == "old finishes first":
+            gate_a.set()
+            wait_until(lambda: "a1" in ran, 3.0)
+            time.sleep(0.05)                  # the completion callback of a1 has run
+        out = {}
+
+        def flush_b():
+            b.flush()
+            out["b_flush_returned_with"] = sorted(ran)
+        fb = threading.Thread(target=flush_b, daemon=True)
+        fb.start()
+        fb.join(0.4)
+        early = not fb.is_alive()
+        gate_b.set()
+        gate_a.set()
+        fb.join(20)
+        a.flush()
+        j = dict(schedule="handler A accepts a1, handler B accepts b1 (both held back); %s; B.flush() on its own thread; then b1 is let go"
+                 % ("a1 is let go and completes" if order == "old finishes first" else "nothing completes yet"),
+                 b_flush=out, b_flush_returned_while_b1_was_held=early, ran=sorted(ran))
+        ctx.case(j, nontrivial=True, bucket="two-handlers")
+        if early or "b1" not in out.get("b_flush_returned_with", []):
+            ctx.fail("B.flush() returned with %r finished while b1, which B had accepted, was still held back: the two handlers share "
+                     "their bookkeeping" % (out.get("b_flush_returned_with"),), j, kind="schedule", tag="flush-early-two-handlers")
+        if sorted(ran) != ["a1", "b1"]:
+            ctx.fail("after both flushes the tasks run are %r; accepted were a1 and b1, each once" % (sorted(ran),), j, kind="schedule",
+                     tag="two-handlers-exactly-once")
+        if a._pending or b._pending:
+            ctx.fail("after both flushes %d / %d tasks are still listed as pending" % (len(a._pending), len(b._pending)), j, kind="schedule",
+                     tag="two-handlers-pending")
+
+
 def run(ctx):
     import logging
     from ..lib.quiet import quiet_logging
@@ -294,6 +340,7 @@ def run(ctx):
     push_service(ctx, rng, 120 if ctx.thorough else 25)
     pool_refuses(ctx)
     two_flushes(ctx)
+    two_handlers(ctx)
 
 
 def replay(ctx, data):
